@@ -56,7 +56,9 @@ contract("MultiRelationLink.reference_node", params=dict(self=REF("MultiRelation
 
 observer("IRelationLink.reference_node", params=dict(self=REF("IRelationLink")), returns=OPT(OP), reads="*",
          ensures=["not typeis(self, RelationLink) or result is self._reference_node",
-                  "not typeis(self, MultiRelationLink) or result is self.reference_node"], props=P)
+                  "not typeis(self, MultiRelationLink) or result is self.reference_node",
+                  # (restated from MultiRelationLink.reference_node's verified contract, so that it is available at any nesting depth)
+                  "not typeis(self, MultiRelationLink) or (result is None) == (len(self._reference_nodes) == 0)"], props=P)
 refines("RelationLink.reference_node", "IRelationLink.reference_node", props=P)
 
 contract("IRelationLink.get_start_time", params=dict(self=REF("IRelationLink"), duration=REAL), returns=REAL, pure=True,
